@@ -404,7 +404,13 @@ class SMCSampler(MCMCSampler):
 
     def log_prob(self, z, beta=None):
         x, log_abs_det_jacobian = self.preconditioning_transform.inverse(z)
-        samples = SMCSamples(x, xp=self.xp, beta=beta, dtype=self.dtype)
+        samples = SMCSamples(
+            x,
+            xp=self.xp,
+            beta=beta,
+            dtype=self.dtype,
+            parameters=self.parameters,
+        )
         log_q = self.prior_flow.log_prob(samples.x)
         samples.log_q = samples.array_to_namespace(log_q)
         samples.log_prior = self.log_prior(samples)
